@@ -19,9 +19,10 @@ type mop struct {
 	Op      string // Set Get Has Delete ForEachStop ForEachDelete Clear Clone EncodeDecode
 	K       E
 	V       uint32
-	Mask    int  // ForEachDelete: keys (by universe bit) deleted from inside the callback when they are visited
-	N       int  // ForEachStop: stop after the (N mod size)+1-th visit
-	Reverse bool // iterate with ForEachReverse
+	Mask    int       // ForEachDelete: keys (by universe bit) deleted from inside the callback when they are visited
+	N       int       // ForEachStop: stop after the (N mod size)+1-th visit
+	Reverse bool      // iterate with ForEachReverse
+	Script  []iterMut // ForEachScript: mutations the consumer performs while the iteration is in progress
 }
 
 func (o mop) String() string {
@@ -42,9 +43,29 @@ func (o mop) String() string {
 		return fmt.Sprintf("ForEach%s(delete-successor@%d)", dir, o.N)
 	case "ForEachAppend":
 		return "ForEach(append-at-tail)"
+	case "ForEachScript":
+		return fmt.Sprintf("ForEach%s(consumer mutates: %v)", dir, o.Script)
 	}
 
 	return o.Op + "()"
+}
+
+// iterMut is one mutation performed from inside the consumer when it is called for the At-th time (0-based).
+type iterMut struct {
+	At   int
+	Kind string // del | set | clear
+	K    E
+	V    uint32
+}
+
+func (m iterMut) String() string {
+	switch m.Kind {
+	case "del":
+		return fmt.Sprintf("@%d:Delete(%d)", m.At, m.K)
+	case "set":
+		return fmt.Sprintf("@%d:Set(%d,%d)", m.At, m.K, m.V)
+	}
+	return fmt.Sprintf("@%d:Clear()", m.At)
 }
 
 type omapWorld struct {
@@ -276,6 +297,129 @@ func (w *omapWorld) apply(o mop) string {
 		}
 		w.keys.add(fresh)
 		w.vals[fresh] = 77
+	case "ForEachScript":
+		// the consumer mutates the map while the iteration is in progress: it deletes the entry it is called for, entries
+		// before or behind it, sets old and new keys, clears the map. Validity predicate (like Go's own maps): every visited
+		// entry is in the map, with that value, at the moment it is visited; visits follow the insertion order strictly (no
+		// entry twice); every entry that was in the map from the start to the end of the iteration is visited; entries
+		// inserted while it runs may or may not be visited.
+		type ent struct {
+			k   E
+			v   uint32
+			seq int
+		}
+		var live []ent
+		for i, k := range w.keys.slice() {
+			live = append(live, ent{k, w.vals[k], i})
+		}
+		nextSeq := len(live)
+		find := func(k E) int {
+			for i, e := range live {
+				if e.k == k {
+					return i
+				}
+			}
+			return -1
+		}
+		modelMutate := func(mu iterMut) {
+			switch mu.Kind {
+			case "del":
+				if i := find(mu.K); i >= 0 {
+					live = append(live[:i:i], live[i+1:]...)
+					w.everDeleted[mu.K] = true
+				}
+			case "set":
+				if i := find(mu.K); i >= 0 {
+					live[i].v = mu.V
+				} else {
+					live = append(live, ent{mu.K, mu.V, nextSeq})
+					nextSeq++
+				}
+			default:
+				for _, e := range live {
+					w.everDeleted[e.k] = true
+				}
+				live = nil
+			}
+		}
+		// the real run drives the reference: the consumer applies each scripted mutation to the map and to the model at the
+		// same moment, and every visit is judged against the model as it is then
+		atStart := map[E]int{}
+		for _, e := range live {
+			atStart[e.k] = e.seq
+		}
+		removedDuring := map[E]bool{}
+		var seen []kv
+		problem := ""
+		lastSeq, haveLast := 0, false
+		f := func(k E, v uint32) bool {
+			seen = append(seen, kv{k, v})
+			i := find(k)
+			switch {
+			case i < 0:
+				problem = fmt.Sprintf("visit %d: key %d is not in the map at this moment (it was removed before the iteration reached it)", len(seen)-1, k)
+			case live[i].v != v:
+				problem = fmt.Sprintf("visit %d: key %d delivered with value %d, the map holds %d", len(seen)-1, k, v, live[i].v)
+			case haveLast && !o.Reverse && live[i].seq <= lastSeq, haveLast && o.Reverse && live[i].seq >= lastSeq:
+				problem = fmt.Sprintf("visit %d: key %d does not follow the previously visited entry in insertion order (visited twice or out of order)", len(seen)-1, k)
+			}
+			if i >= 0 {
+				lastSeq, haveLast = live[i].seq, true
+			}
+			for _, mu := range o.Script {
+				if mu.At != len(seen)-1 {
+					continue
+				}
+				switch mu.Kind {
+				case "del":
+					if find(mu.K) >= 0 {
+						removedDuring[mu.K] = true
+					}
+					m.Delete(mu.K)
+				case "set":
+					m.Set(mu.K, mu.V)
+				default:
+					for _, e := range live {
+						removedDuring[e.k] = true
+					}
+					m.Clear()
+				}
+				modelMutate(mu)
+			}
+
+			return problem == "" && len(seen) < 64
+		}
+		if o.Reverse {
+			m.ForEachReverse(f)
+		} else {
+			m.ForEach(f)
+		}
+		w.keys = newOset()
+		w.vals = map[E]uint32{}
+		for _, e := range live {
+			w.keys.add(e.k)
+			w.vals[e.k] = e.v
+		}
+		if problem == "" {
+			// completeness: an entry that was in the map when the iteration started and was never removed while it ran has been
+			// visited (entries inserted while it ran may or may not be visited)
+			visited := map[E]bool{}
+			for _, x := range seen {
+				visited[x.k] = true
+			}
+			for k := range atStart {
+				if !removedDuring[k] && !visited[k] {
+					problem = fmt.Sprintf("key %d was in the map during the whole iteration but was not visited", k)
+				}
+			}
+		}
+		if problem != "" {
+			return fmt.Sprintf("%s visited %v: %s", o, seen, problem)
+		}
+		expect := seen
+		if len(o.Script) > 0 && len(expect) > 1 {
+			w.iterDelete = true
+		}
 	case "Clear":
 		m.Clear()
 		for _, k := range w.keys.slice() {
@@ -361,7 +505,7 @@ func (w *omapWorld) payload(problem string) map[string]any {
 
 func TestOrderedMapModel(t *testing.T) {
 	stats.Rule(checkOMap, "rapid state machine on one SerializableOrderedMap[uint16,uint32] (embeds OrderedMap) over a universe of 6-8 keys vs. a slice+map model; "+
-		"actions Set/Get/Has/Delete/ForEach+ForEachReverse with early stop, with delete-current-key, delete-the-successor and append-at-the-tail from inside the callback/Clear/Clone (+mutating the clone)/Encode->Decode into a fresh map; "+
+		"actions Set/Get/Has/Delete/ForEach+ForEachReverse with early stop, with delete-current-key, delete-the-successor, append-at-the-tail and drawn scripts of 1-4 Delete/Set/Clear calls (any key) from inside the callback, judged by a validity predicate: only live entries, strictly in insertion order, nothing that stayed in the map is missed/Clear/Clone (+mutating the clone)/Encode->Decode into a fresh map; "+
 		"after every action forward and reverse iteration (keys and values), Size, IsEmpty, Head, Tail and Get/Has of every universe key are compared; distinct by op list; "+
 		"non-trivial = a deleted key was re-inserted while other keys were live AND (an existing non-tail key was overwritten OR a key was deleted from inside an iteration that continued)")
 
@@ -397,6 +541,14 @@ func TestOrderedMapModel(t *testing.T) {
 				step(mop{Op: "ForEachDeleteNext", N: rapid.IntRange(0, 7).Draw(rt, "at"), Reverse: rapid.Bool().Draw(rt, "reverse")})
 			},
 			"ForEachAppend": func(*rapid.T) { step(mop{Op: "ForEachAppend"}) },
+			"ForEachScript": func(*rapid.T) {
+				var sc []iterMut
+				for i, n := 0, rapid.IntRange(1, 4).Draw(rt, "muts"); i < n; i++ {
+					sc = append(sc, iterMut{At: rapid.IntRange(0, 4).Draw(rt, "at"), Kind: rapid.SampledFrom([]string{"del", "del", "del", "set", "set", "clear"}).Draw(rt, "kind"),
+						K: key(), V: uint32(rapid.IntRange(100, 199).Draw(rt, "v"))})
+				}
+				step(mop{Op: "ForEachScript", Script: sc, Reverse: rapid.Bool().Draw(rt, "reverse")})
+			},
 			"ForEachDelete": func(*rapid.T) {
 				// mostly one or two keys so the map is not emptied all the time
 				mask := 1 << rapid.IntRange(0, len(w.universe)-1).Draw(rt, "delKey")
